@@ -31,6 +31,7 @@ instance is moved for a renewal only when the renewal really failed; C07.6
 (shared with C08.1) the inactive-server pre-pass takes nothing off an up
 server. Fourth round: C07.4 the verbatim restore neutralises the lease
 completely (shared with C01.6).
+Fifth round: C07.1 a victim scan by position starts at position 0 of the reversed queue; C07.5 the merge of the sub-queues compares whole entries (shared with C06.5).
 Does NOT decide the relation between queue order and the before/after
 placements of a whole cycle (a property of the run).
 """
@@ -446,4 +447,22 @@ REFACTORS = [
                     evicted[evicted_app] = (evicted_app_server,
                                             evicted_app.placement_expiry)
 """)]),
+]
+
+REFACTORS += [
+    ('victim-scan-by-position', [(_S, """                for evicted_app in reversed_queue:
+                    # We reached the app we can't place
+""", """                for idx in range(len(reversed_queue)):
+                    evicted_app = reversed_queue[idx]
+                    # We reached the app we can't place
+""")]),
+]
+
+MUTANTS += [
+    ('victim-scan-from-cursor', [(_S, """                for evicted_app in reversed_queue:
+                    # We reached the app we can't place
+""", """                for idx in range(1, len(reversed_queue)):
+                    evicted_app = reversed_queue[idx]
+                    # We reached the app we can't place
+""")], 'C07.1'),
 ]
